@@ -200,9 +200,25 @@ def check_insert_any_changed(prog, r):
 BEST_READ = re.compile(r"rustybgp_table::Destination::unfiltered_best|.*Iterator::find")
 
 
+def _nlri_change_sites_deep(prog):
+    """As nlri_change_sites, on the deep view (closures called directly expanded in place): `let best_key = |d| d.unfiltered_best()..;
+    let old = best_key(dst); ..; old != best_key(dst)` reads like two written-out reads."""
+    from ..util import view_deep
+    out = []
+    for k in crate_fns(prog, "rustybgp_table"):
+        if "rustybgp_table::NlriChange" not in " ".join(prog.ix[k].get("aggs", [])):
+            continue
+        fv = view_deep(prog, k)
+        for bi, si, s in fv.aggregates(NLRI_CHANGE):
+            if s.get("x"):
+                continue
+            out.append((fv, bi, si, s))
+    return out
+
+
 def check_bracketing(prog, r):
     n = 0
-    for fv, bi, si, s in nlri_change_sites(prog):
+    for fv, bi, si, s in _nlri_change_sites_deep(prog):
         op = agg_field(s, "best_changed")
         rend = Renderer(fv, depth=12)
         e = rend.operand(op, 12)
